@@ -26,11 +26,14 @@ def shards(tier):
     ]
     for k in range(3 if q else 8):
         out.append({"name": "np.jit.%d" % k, "mode": "jit", "backend": "np", "fn": "all", "n": 40 if q else 1500})
+    out.append({"name": "retained.np.jit", "mode": "jit", "backend": "np", "fn": "retained", "n": 2 if q else 30})
+    out.append({"name": "retained.torch", "mode": "jit", "backend": "torch", "fn": "retained", "n": 1 if q else 6})
+    out.append({"name": "forms.np.jit", "mode": "jit", "backend": "np", "fn": "all", "n": 6 if q else 300, "forms": 1})
     return out
 
 
 def run(shard, rec, B):
-    run_all(shard, rec, B)
+    globals()["run_" + shard["fn"]](shard, rec, B)
 
 
 def signed(obj_desc):
@@ -159,12 +162,20 @@ def run_all(shard, rec, B):
         readout = bits if B.name == "np" else B.torch.tensor(bits)
         ig, ip = gen.independent_commuting(rng, N, int(rng.integers(1, N + 1)))
         Lind = B.PauliList(ig.copy(), ip.copy())
+        em = np.zeros(N, dtype=bool)
+        em[gen.rand_subset(rng, N, max(1, N - int(rng.integers(0, 2))))] = True     # a region of more than half the qubits
+        ent_mask = em.copy() if B.name == "np" else B.torch.tensor(em)
+        ent_mask2 = em.copy() if B.name == "np" else B.torch.tensor(em)
+        ent_idx = np.array(gen.rand_subset(rng, N, int(rng.integers(1, N + 1))))
         queries = [
             ("expect.list", S, [Lobs], lambda: S.expect(Lobs)),
             ("expect.poly", S, [Pol], lambda: S.expect(Pol)),
             ("expect.pauli", S, [], lambda: S.expect(B.Pauli(og[0].copy(), 1))),
             ("expect.state", Sp, [Sig], lambda: Sp.expect(Sig)),
             ("entropy", S, [], lambda: S.entropy(gen.rand_subset(rng, N, int(rng.integers(1, N + 1))))),
+            ("entropy.mask", S, [ent_mask], lambda: S.entropy(ent_mask)),
+            ("entropy.mask.pure", Sp, [ent_mask2], lambda: Sp.entropy(ent_mask2)),
+            ("entropy.array", S, [ent_idx], lambda: S.entropy(ent_idx)),
             ("sample", S, [], lambda: S.sample(4)),
             ("get_prob", Sp, [readout], lambda: Sp.get_prob(readout)),
             ("density_matrix", S, [], lambda: S.density_matrix),
@@ -254,3 +265,51 @@ def gate_def_snapshot(a):
 def defs_changed(before, after):
     """paths whose value changed or disappeared; newly added cache entries (map derived from the other map) are not changes."""
     return [k for k in before if before[k] != after.get(k) and not (before[k] == ("scalar", "None") and k.endswith(("forward_map", "backward_map")))]
+
+
+def run_retained(shard, rec, B):
+    """results handed out by a call are re-observed after the SAME call has been made on another object of the same size
+    (small and wide registers): no two results, and no result and a later receiver, may share storage."""
+    rng = gen.rng_for(rec)
+    for t in range(shard["n"]):
+        for N in ([2, 5, 16, 31, 32, 33, 40, 64, 65] if B.name == "np" else [2, 5, 32, 33]):
+            m1, m2 = O.random_map(rng, N, nrot=N + 2), O.random_map(rng, N, nrot=N + 2)
+            t1, t2 = O.random_tableau(rng, N, nrot=N), O.random_tableau(rng, N, nrot=N)
+            M1, M2 = B.Map(m1[0].copy(), m1[1].copy()), B.Map(m2[0].copy(), m2[1].copy())
+            S1, S2 = B.State(t1[0].copy(), t1[1].copy(), t1[2]), B.State(t2[0].copy(), t2[1].copy(), t2[2])
+            calls = [
+                ("inverse", lambda: M1.inverse(), lambda: M2.inverse()),
+                ("compose", lambda: M1.compose(M2), lambda: M2.compose(M1)),
+                ("map.copy", lambda: M1.copy(), lambda: M2.copy()),
+                ("to_state", lambda: M1.to_state(), lambda: M2.to_state(1)),
+                ("to_map", lambda: S1.to_map(), lambda: S2.to_map()),
+                ("state.copy", lambda: S1.copy(), lambda: S2.copy()),
+                ("identity_map", lambda: B.stabilizer.identity_map(N), lambda: B.stabilizer.identity_map(N)),
+                ("zero_state", lambda: B.stabilizer.zero_state(N), lambda: B.stabilizer.zero_state(N)),
+            ]
+            if B.name == "np":
+                g1 = B.circuit.CliffordGate(*range(N))
+                g1.set_forward_map(B.Map(m1[0].copy(), m1[1].copy()))
+                g2 = B.circuit.CliffordGate(*range(N))
+                g2.set_forward_map(B.Map(m2[0].copy(), m2[1].copy()))
+                calls.append(("gate.compile", lambda: g1.compile().backward_map, lambda: g2.compile().backward_map))
+            for name, c1, c2 in calls:
+                ok, r1 = rec.attempt("retained." + name, [name, N], c1)
+                if not ok:
+                    continue
+                s1 = snapshot(r1)
+                ok, r2 = rec.attempt("retained." + name, [name, N], c2)
+                if not ok:
+                    continue
+                d = snap_diff(s1, snapshot(r1))
+                sh = shares_memory(r1, r2)
+                rec.check("retained." + name, not d and not sh, {"call": name, "N": N}, True, expected="first result unchanged by the second call, no shared storage",
+                          observed={"changed": d[:4], "shared": sh[:4]})
+                if name in ("identity_map", "zero_state"):   # changing one result must not change what the next call returns
+                    try:
+                        r1.gs[0, 0] = 1 - r1.gs[0, 0]
+                    except Exception:
+                        pass
+                    ok, r3 = rec.attempt("retained." + name, [name, N], c2)
+                    if ok:
+                        rec.check("retained." + name, not snap_diff(snapshot(r2), snapshot(r3)), {"call": name, "N": N, "after": "mutating an earlier result"}, True)
